@@ -582,6 +582,15 @@ theorem C03_json_int_range_coercion_partial (col : JsonRange.ColT) (lo hi : Json
     | i w => rfl
     | u w => rfl
 
+/-- f64 column (a path that received a float): every bound — i64, u64 or f64 term — is converted
+with its kind preserved, and selects exactly the values satisfying the numeric meaning, as long as
+the numbers involved convert to binary64 exactly (half-units below 2^53); only the order of the
+encoded values matters (`C03_f64_to_u64_strictMono`) -/
+theorem C03_json_f64_column_range_exact (lo hi : JsonRange.B) (hv : Int)
+    (hs : -(2 ^ 53) < hv ∧ hv < 2 ^ 53) (hlo : lo.small) (hhi : hi.small) :
+    JsonRange.implMatchF lo hi hv = JsonRange.specMatchF lo hi hv :=
+  JsonRange.f64_column_exact lo hi hv hs hlo hhi
+
 /-- the excluded u64 combination is really wrong in the pinned code: `attrs.n:[9223372036854775808 TO *]`
 (a u64 term) on a path whose column is i64 is converted to `Excluded(i64::MAX as u64)` in the
 column's *encoded* space, i.e. to "value ≥ 0", instead of "nothing" -/
@@ -678,6 +687,14 @@ example :
     let d : ADoc := ⟨1, [⟨1, [97], [0]⟩, ⟨1, [120], [1]⟩, ⟨1, [98, 99], [2]⟩], []⟩
     semPhrasePrefix d 1 [(0, [97])] 2 [98] = true ∧ semPhrasePrefix d 1 [(0, [97])] 1 [98] = false
       ∧ maxOff [(0, [97]), (2, [98])] ≤ 5 := by decide
+example : (JsonRange.B.excl (.f (-3))).small ∧ (JsonRange.B.incl (.i 7)).small
+    ∧ JsonRange.implMatchF (.excl (.f (-3))) (.incl (.i 7)) 5 = true
+    ∧ JsonRange.implMatchF (.excl (.f (-3))) (.incl (.i 7)) (-3) = false := by
+  refine ⟨?_, ?_, by decide, by decide⟩
+  · show -(2 ^ 53) < (-3 : Int) ∧ (-3 : Int) < 2 ^ 53
+    decide
+  · show -(2 ^ 53) < (2 * 7 : Int) ∧ (2 * 7 : Int) < 2 ^ 53
+    decide
 example : (([⟨1, [], []⟩, ⟨2, [], []⟩] : List ADoc)).Perm [⟨2, [], []⟩, ⟨1, [], []⟩] :=
   List.Perm.swap _ _ _
 
